@@ -547,6 +547,8 @@ fn random_schedule(rng: &mut Rng, n: usize, focus_c06: bool) -> Vec<String> {
     let len = 4 + rng.below(if focus_c06 { 8 } else { 22 }) as usize;
     let mut payload = 0x100 + rng.below(1000) * 16;
     let mut have_slot = vec![false; n];
+    let mut max_tick = tick;
+    let mut restarted_since_max = false;
     for _ in 0..len {
         // the wall clock moves (sometimes stalls or steps back a little): everything stays
         // well within one forgiveness period
@@ -555,6 +557,14 @@ fn random_schedule(rng: &mut Rng, n: usize, focus_c06: bool) -> Vec<String> {
             1 => tick.saturating_sub(rng.below(50)),
             _ => tick + rng.below(2000),
         };
+        // a node clock is not persisted: after a restart it starts from the wall clock, so the
+        // wall clock must not be behind what the node had issued before (NTP stepping back across
+        // a restart is outside the properties)
+        if restarted_since_max {
+            tick = tick.max(max_tick + 1);
+            restarted_since_max = false;
+        }
+        max_tick = max_tick.max(tick);
         toks.push(format!("W:{:x}", tick));
         payload += 1;
         let i = rng.below(n as u64) as usize;
@@ -598,7 +608,10 @@ fn random_schedule(rng: &mut Rng, n: usize, focus_c06: bool) -> Vec<String> {
                 }
             },
             14 => toks.push(format!("P:{}", i)),
-            _ => toks.push(format!("R:{}", i)),
+            _ => {
+                toks.push(format!("R:{}", i));
+                restarted_since_max = true;
+            },
         }
     }
     toks.push("Q".to_string());
